@@ -129,6 +129,23 @@ def rule_len(chk, prog):
                                   instance=inst)
                 else:
                     chk.ok("reject-mode", inst)
+        # counts used by range() / slicing / list repetition must be provably non-negative
+        seen_req = set()
+        for g in accepted:
+            for lin, text in g.interp.requirements:
+                sl = symlen.simplify(lin, g.facts)
+                if repr(sl) in seen_req:
+                    continue
+                seen_req.add(repr(sl))
+                inst = "%s: %r >= 0 (used as a count in `%s`)" % (c.name, sl, text[:50])
+                if symlen.prove_le(symlen.Lin.c(0), sl, g.facts):
+                    chk.ok("len-agree", inst)
+                else:
+                    chk.violation("len-agree", ST, c.name + ".__init__", "count %r >= 0" % sl, c.lineno,
+                                  "`%s` uses %r as a count: range(), slicing and list repetition treat a negative value as "
+                                  "0 while nfeat adds it as it is, so the accessors disagree for a negative value; the "
+                                  "constructor accepts it (facts: %s)" % (text[:60], sl, "; ".join(g.facts.text) or "none"),
+                                  instance=inst)
         for meth in symlen.SETTINGS_LEN_METHODS:
             owner = members[meth][1].name
             bad = []
@@ -385,7 +402,8 @@ PARAM_GUARDS = {
     (ST, "SDMXGSettings.__init__"): ["ndt"],
     (ST, "SDMX1Settings.__init__"): ["_n1"],
     (ST, "FracLaplSettings.__init__"): ["nk0", "nk1", "nd1", "ndd"],
-    (ST, "NLDFSettings._check_params"): ["params[0]", "params[1]", "params[2]", "len(params)"],
+    (ST, "NLDFSettings._check_params"): ["params[0]", "params[1]", "params[2]", "len(params)", "params[n]"],
+    (ST, "FeatureSettings.__init__"): ["normalizers.nfeat"],
     (ST, "NLDFSettings._check_specs"): ["spec"],
     (ST, "_check_l1_dots"): ["dot", "nl1"],
 }
@@ -866,7 +884,7 @@ def collect_guards(tree, eng, prog):
                 continue
             if not fg.guaranteed(ids, [g.exit.id]):
                 continue
-            if subj in params:
+            if subj in params or (subj.endswith("__each") and subj[:-6] in params):
                 fs.add("p:%s:%s" % (subj, kind))
             elif subj.startswith("self."):
                 fs.add("%s:%s" % (subj, kind))
@@ -964,7 +982,7 @@ def rule_guards(chk, eng, prog):
                 chk.ok("guards", inst)
                 continue
             if sig.startswith("p:"):
-                pname = sig[2:].split(":")[0]
+                pname = sig[2:].split(":")[0].replace("__each", "")
                 if pname not in [a.arg for a in fdef[0].args.args + fdef[0].args.kwonlyargs]:
                     unloc += 1
                     chk.note("guards", key, "guard table entry not locatable: parameter `%s` no longer exists (%s)"
@@ -987,40 +1005,57 @@ FROZEN_CALL_GUARDS = {
         'c:get_gga_baseline#4:contig': 1,
         'c:get_gga_baseline#4:ndim': 1,
         'c:get_gga_baseline#4:shape': 1,
+        'c:get_gga_baseline#4:shape[0]': 1,
+        'c:get_gga_baseline#4:shape[1]': 1,
         'c:get_gga_baseline#5:contig': 1,
+        'c:get_gga_baseline#5:dtype': 1,
         'c:get_gga_baseline#5:shape': 1,
         'c:get_gga_baseline#6:contig': 1,
+        'c:get_gga_baseline#6:dtype': 1,
         'c:get_gga_baseline#6:shape': 1,
         'c:get_gga_baseline#7:contig': 1,
+        'c:get_gga_baseline#7:dtype': 1,
         'c:get_gga_baseline#7:shape': 1,
         'c:get_lda_baseline#3:contig': 1,
         'c:get_lda_baseline#4:contig': 1,
+        'c:get_lda_baseline#4:dtype': 1,
         'c:get_lda_baseline#4:shape': 1,
         'c:get_lda_baseline#5:contig': 1,
+        'c:get_lda_baseline#5:dtype': 1,
         'c:get_lda_baseline#5:shape': 1,
         'c:get_mgga_baseline#3:contig': 1,
         'c:get_mgga_baseline#4:contig': 1,
         'c:get_mgga_baseline#4:ndim': 1,
         'c:get_mgga_baseline#4:shape': 1,
+        'c:get_mgga_baseline#4:shape[0]': 1,
+        'c:get_mgga_baseline#4:shape[1]': 1,
+        'c:get_mgga_baseline#5:contig': 1,
         'c:get_mgga_baseline#6:contig': 1,
+        'c:get_mgga_baseline#6:dtype': 1,
         'c:get_mgga_baseline#6:shape': 1,
         'c:get_mgga_baseline#7:contig': 1,
+        'c:get_mgga_baseline#7:dtype': 1,
         'c:get_mgga_baseline#7:shape': 1,
         'c:get_mgga_baseline#8:contig': 1,
+        'c:get_mgga_baseline#8:dtype': 1,
         'c:get_mgga_baseline#8:shape': 1,
         'c:get_mgga_baseline#9:contig': 1,
+        'c:get_mgga_baseline#9:dtype': 1,
         'c:get_mgga_baseline#9:shape': 1,
     },
     'ciderpress/dft/debug_numint.py': {
         'c:debug_numint_vi#0:contig': 1,
+        'c:debug_numint_vi#0:dtype': 1,
         'c:debug_numint_vi#0:shape': 1,
         'c:debug_numint_vi#3:contig': 1,
         'c:debug_numint_vi#4:contig': 1,
         'c:debug_numint_vj#0:contig': 1,
+        'c:debug_numint_vj#0:dtype': 1,
         'c:debug_numint_vj#0:shape': 1,
         'c:debug_numint_vj#4:contig': 1,
         'c:debug_numint_vj#5:contig': 1,
         'c:debug_numint_vk#0:contig': 1,
+        'c:debug_numint_vk#0:dtype': 1,
         'c:debug_numint_vk#0:shape': 1,
         'c:debug_numint_vk#4:contig': 1,
         'c:debug_numint_vk#5:contig': 1,
@@ -1030,18 +1065,28 @@ FROZEN_CALL_GUARDS = {
         'c:reduce_angc_to_ylm#0:dtype': 1,
         'c:reduce_angc_to_ylm#0:ndim': 1,
         'c:reduce_angc_to_ylm#0:shape': 1,
+        'c:reduce_angc_to_ylm#0:shape[0]': 1,
+        'c:reduce_angc_to_ylm#0:shape[1]': 1,
+        'c:reduce_angc_to_ylm#0:shape[2]': 1,
         'c:reduce_angc_to_ylm#2:contig': 1,
         'c:reduce_angc_to_ylm#2:dtype': 1,
         'c:reduce_angc_to_ylm#2:ndim': 1,
         'c:reduce_angc_to_ylm#2:shape': 1,
+        'c:reduce_angc_to_ylm#2:shape[0]': 1,
+        'c:reduce_angc_to_ylm#2:shape[1]': 1,
         'c:reduce_ylm_to_angc#0:contig': 1,
         'c:reduce_ylm_to_angc#0:dtype': 1,
         'c:reduce_ylm_to_angc#0:ndim': 1,
         'c:reduce_ylm_to_angc#0:shape': 1,
+        'c:reduce_ylm_to_angc#0:shape[0]': 1,
+        'c:reduce_ylm_to_angc#0:shape[1]': 1,
+        'c:reduce_ylm_to_angc#0:shape[2]': 1,
         'c:reduce_ylm_to_angc#2:contig': 1,
         'c:reduce_ylm_to_angc#2:dtype': 1,
         'c:reduce_ylm_to_angc#2:ndim': 1,
         'c:reduce_ylm_to_angc#2:shape': 1,
+        'c:reduce_ylm_to_angc#2:shape[0]': 1,
+        'c:reduce_ylm_to_angc#2:shape[1]': 1,
         'rel:reduce_angc_to_ylm#10 + reduce_angc_to_ylm#5 - reduce_angc_to_ylm#9 <= 0': 1,
         'rel:reduce_ylm_to_angc#10 + reduce_ylm_to_angc#5 - reduce_ylm_to_angc#9 <= 0': 1,
     },
@@ -1050,10 +1095,13 @@ FROZEN_CALL_GUARDS = {
         'c:contract_orb_to_rad#0:dtype': 1,
         'c:contract_orb_to_rad#0:ndim': 1,
         'c:contract_orb_to_rad#0:shape': 1,
+        'c:contract_orb_to_rad#0:shape[0]': 1,
+        'c:contract_orb_to_rad#0:shape[1]': 1,
         'c:contract_orb_to_rad#1:contig': 1,
         'c:contract_orb_to_rad#1:dtype': 1,
         'c:contract_orb_to_rad#1:ndim': 1,
         'c:contract_orb_to_rad#1:shape': 1,
+        'c:contract_orb_to_rad#1:shape[0]': 1,
         'c:contract_orb_to_rad#2:contig': 1,
         'c:contract_orb_to_rad#2:dtype': 1,
         'c:contract_orb_to_rad#2:ndim': 1,
@@ -1064,10 +1112,13 @@ FROZEN_CALL_GUARDS = {
         'c:contract_rad_to_orb#0:dtype': 1,
         'c:contract_rad_to_orb#0:ndim': 1,
         'c:contract_rad_to_orb#0:shape': 1,
+        'c:contract_rad_to_orb#0:shape[0]': 1,
+        'c:contract_rad_to_orb#0:shape[1]': 1,
         'c:contract_rad_to_orb#1:contig': 1,
         'c:contract_rad_to_orb#1:dtype': 1,
         'c:contract_rad_to_orb#1:ndim': 1,
         'c:contract_rad_to_orb#1:shape': 1,
+        'c:contract_rad_to_orb#1:shape[0]': 1,
         'c:contract_rad_to_orb#2:contig': 1,
         'c:contract_rad_to_orb#2:dtype': 1,
         'c:contract_rad_to_orb#2:ndim': 1,
@@ -1075,69 +1126,118 @@ FROZEN_CALL_GUARDS = {
         'c:contract_rad_to_orb#3:contig': 1,
         'c:contract_rad_to_orb#3:dtype': 1,
         'c:generate_atc_basis_set#1:contig': 1,
+        'c:generate_atc_basis_set#1:dtype': 1,
         'c:generate_atc_basis_set#2:contig': 1,
+        'c:generate_atc_basis_set#2:dtype': 1,
         'c:generate_atc_basis_set#3:contig': 1,
+        'c:generate_atc_basis_set#3:dtype': 1,
         'c:generate_atc_basis_set#4:contig': 1,
+        'c:generate_atc_basis_set#4:dtype': 1,
         'c:generate_atc_basis_set#5:contig': 1,
+        'c:generate_atc_basis_set#5:dtype': 1,
         'c:generate_convolution_collection#3:contig': 1,
+        'c:generate_convolution_collection#3:dtype': 1,
         'c:generate_convolution_collection#4:contig': 1,
+        'c:generate_convolution_collection#4:dtype': 1,
         'c:generate_convolution_collection#4:size': 1,
         'c:generate_convolution_collection#5:contig': 1,
+        'c:generate_convolution_collection#5:dtype': 1,
         'c:get_atco_bas#0:contig': 1,
+        'c:get_atco_bas#0:dtype': 1,
         'c:get_atco_bas#0:shape': 1,
         'c:get_atco_env#0:contig': 1,
+        'c:get_atco_env#0:dtype': 1,
         'c:get_atco_env#0:shape': 1,
         'c:multiply_atc_integrals#0:contig': 1,
+        'c:multiply_atc_integrals#0:dtype': 1,
         'c:multiply_atc_integrals#0:ndim': 1,
         'c:multiply_atc_integrals#0:shape': 1,
+        'c:multiply_atc_integrals#0:shape[0]': 1,
+        'c:multiply_atc_integrals#0:shape[1]': 1,
         'c:multiply_atc_integrals#1:contig': 1,
+        'c:multiply_atc_integrals#1:dtype': 1,
         'c:multiply_atc_integrals#1:ndim': 1,
         'c:multiply_atc_integrals#1:shape': 1,
+        'c:multiply_atc_integrals#1:shape[0]': 1,
+        'c:multiply_atc_integrals#1:shape[1]': 1,
         'c:multiply_atc_integrals_vk#0:contig': 1,
+        'c:multiply_atc_integrals_vk#0:dtype': 1,
         'c:multiply_atc_integrals_vk#0:ndim': 1,
         'c:multiply_atc_integrals_vk#0:shape': 1,
+        'c:multiply_atc_integrals_vk#0:shape[0]': 1,
+        'c:multiply_atc_integrals_vk#0:shape[1]': 1,
         'c:multiply_atc_integrals_vk#1:contig': 1,
+        'c:multiply_atc_integrals_vk#1:dtype': 1,
         'c:multiply_atc_integrals_vk#1:ndim': 1,
         'c:multiply_atc_integrals_vk#1:shape': 1,
+        'c:multiply_atc_integrals_vk#1:shape[0]': 1,
+        'c:multiply_atc_integrals_vk#1:shape[1]': 1,
         'rel:contract_orb_to_rad#7 - contract_orb_to_rad#8 + contract_orb_to_rad#9 <= 0': 1,
         'rel:contract_rad_to_orb#7 - contract_rad_to_orb#8 + contract_rad_to_orb#9 <= 0': 1,
     },
     'ciderpress/dft/lcao_interpolation.py': {
         'c:add_lp1_onsite_new_bwd#0:contig': 1,
+        'c:add_lp1_onsite_new_bwd#0:dtype': 1,
         'c:add_lp1_onsite_new_bwd#0:shape': 1,
         'c:add_lp1_onsite_new_fwd#0:contig': 1,
+        'c:add_lp1_onsite_new_fwd#0:dtype': 1,
         'c:add_lp1_onsite_new_fwd#0:shape': 1,
         'c:add_lp1_term_grad#0:contig': 1,
+        'c:add_lp1_term_grad#0:dtype': 1,
         'c:add_lp1_term_grad#0:shape': 1,
         'c:add_lp1_term_grad#1:contig': 1,
+        'c:add_lp1_term_grad#1:dtype': 1,
         'c:add_lp1_term_grad#1:shape': 1,
         'c:compute_mol_convs_single_new#0:contig': 3,
+        'c:compute_mol_convs_single_new#0:dtype': 3,
         'c:compute_mol_convs_single_new#0:shape': 4,
+        'c:compute_mol_convs_single_new#0:shape[-1]': 1,
         'c:compute_num_spline_contribs_new#0:contig': 1,
+        'c:compute_num_spline_contribs_new#0:dtype': 1,
         'c:compute_num_spline_contribs_new#0:shape': 1,
         'c:compute_num_spline_contribs_new#1:contig': 1,
         'c:compute_num_spline_contribs_new#1:shape': 1,
+        'c:compute_num_spline_contribs_new#1:shape[1]': 1,
         'c:compute_pot_convs_single_new#0:shape': 1,
+        'c:compute_pot_convs_single_new#0:shape[-1]': 1,
         'c:compute_spline_ind_order_new#1:contig': 1,
         'c:compute_spline_ind_order_new#1:shape': 1,
+        'c:compute_spline_ind_order_new#1:shape[1]': 1,
         'c:contract_grad_terms_parallel#0:contig': 1,
+        'c:contract_grad_terms_parallel#0:dtype': 1,
         'c:contract_grad_terms_parallel#0:shape': 1,
         'c:contract_grad_terms_parallel#6:contig': 1,
         'c:fill_l1_coeff_bwd#0:ndim': 1,
         'c:fill_l1_coeff_bwd#0:shape': 1,
+        'c:fill_l1_coeff_bwd#0:shape[0]': 1,
+        'c:fill_l1_coeff_bwd#0:shape[1]': 1,
         'c:fill_l1_coeff_fwd#0:ndim': 1,
         'c:fill_l1_coeff_fwd#0:shape': 1,
+        'c:fill_l1_coeff_fwd#0:shape[0]': 1,
+        'c:fill_l1_coeff_fwd#0:shape[1]': 1,
         'c:project_conv_to_spline#0:contig': 1,
         'c:project_conv_to_spline#0:ndim': 1,
         'c:project_conv_to_spline#0:shape': 1,
+        'c:project_conv_to_spline#0:shape[0]': 1,
+        'c:project_conv_to_spline#0:shape[1]': 1,
+        'c:project_conv_to_spline#0:shape[2]': 1,
+        'c:project_conv_to_spline#0:shape[3]': 1,
+        'c:project_conv_to_spline#0:shape[4]': 1,
         'c:project_conv_to_spline#1:contig': 1,
         'c:project_conv_to_spline#1:shape': 1,
+        'c:project_conv_to_spline#1:shape[0]': 1,
         'c:project_conv_to_spline#2:contig': 1,
         'c:project_spline_to_conv#0:contig': 1,
         'c:project_spline_to_conv#0:ndim': 1,
         'c:project_spline_to_conv#0:shape': 1,
+        'c:project_spline_to_conv#0:shape[0]': 1,
+        'c:project_spline_to_conv#0:shape[1]': 1,
+        'c:project_spline_to_conv#0:shape[2]': 1,
+        'c:project_spline_to_conv#0:shape[3]': 1,
+        'c:project_spline_to_conv#0:shape[4]': 1,
         'c:project_spline_to_conv#1:contig': 1,
         'c:project_spline_to_conv#1:shape': 1,
+        'c:project_spline_to_conv#1:shape[0]': 1,
         'c:project_spline_to_conv#2:contig': 1,
         'rel:project_conv_to_spline#10 + project_conv_to_spline#4 - project_conv_to_spline#7 <= 0': 1,
         'rel:project_conv_to_spline#4 - project_conv_to_spline#8 + project_conv_to_spline#9 <= 0': 1,
@@ -1158,16 +1258,22 @@ FROZEN_CALL_GUARDS = {
         'c:cider_coefs_gto_qg#2:contig': 1,
         'c:cider_coefs_gto_qg#3:contig': 1,
         'c:cider_ind_clip#0:contig': 1,
+        'c:cider_ind_clip#0:dtype': 1,
         'c:cider_ind_clip#0:shape': 1,
         'c:cider_ind_clip#1:contig': 1,
+        'c:cider_ind_clip#1:dtype': 1,
         'c:cider_ind_clip#1:shape': 1,
         'c:cider_ind_etb#0:contig': 1,
+        'c:cider_ind_etb#0:dtype': 1,
         'c:cider_ind_etb#0:shape': 1,
         'c:cider_ind_etb#1:contig': 1,
+        'c:cider_ind_etb#1:dtype': 1,
         'c:cider_ind_etb#1:shape': 1,
         'c:cider_ind_zexp#0:contig': 1,
+        'c:cider_ind_zexp#0:dtype': 1,
         'c:cider_ind_zexp#0:shape': 1,
         'c:cider_ind_zexp#1:contig': 1,
+        'c:cider_ind_zexp#1:dtype': 1,
         'c:cider_ind_zexp#1:shape': 1,
     },
     'ciderpress/dft/pwutil.py': {
@@ -1178,7 +1284,9 @@ FROZEN_CALL_GUARDS = {
         'c:eval_cubic_interp#2:contig': 1,
         'c:eval_cubic_interp#2:dtype': 1,
         'c:eval_cubic_interp#2:shape': 1,
+        'c:eval_cubic_interp#2:shape[1]': 1,
         'c:eval_cubic_interp#3:contig': 1,
+        'c:eval_cubic_interp#3:dtype': 1,
         'c:eval_cubic_interp#3:shape': 1,
         'c:eval_cubic_interp_noderiv#0:contig': 1,
         'c:eval_cubic_interp_noderiv#0:dtype': 1,
@@ -1187,24 +1295,30 @@ FROZEN_CALL_GUARDS = {
         'c:eval_cubic_interp_noderiv#2:contig': 1,
         'c:eval_cubic_interp_noderiv#2:dtype': 1,
         'c:eval_cubic_interp_noderiv#2:shape': 1,
+        'c:eval_cubic_interp_noderiv#2:shape[1]': 1,
         'c:eval_cubic_interp_noderiv#3:contig': 1,
+        'c:eval_cubic_interp_noderiv#3:dtype': 1,
         'c:eval_cubic_interp_noderiv#3:shape': 1,
         'c:eval_cubic_spline#0:contig': 1,
         'c:eval_cubic_spline#1:contig': 1,
+        'c:eval_cubic_spline#1:dtype': 1,
         'c:eval_cubic_spline#1:shape': 1,
         'c:eval_cubic_spline#2:contig': 1,
         'c:eval_cubic_spline#3:contig': 1,
         'c:eval_cubic_spline#3:size': 1,
         'c:eval_cubic_spline_deriv#0:contig': 1,
         'c:eval_cubic_spline_deriv#1:contig': 1,
+        'c:eval_cubic_spline_deriv#1:dtype': 1,
         'c:eval_cubic_spline_deriv#1:shape': 1,
         'c:eval_cubic_spline_deriv#2:contig': 1,
         'c:eval_cubic_spline_deriv#3:contig': 1,
         'c:eval_cubic_spline_deriv#3:size': 1,
         'c:eval_pasdw_funcs#0:contig': 1,
         'c:eval_pasdw_funcs#0:shape': 1,
+        'c:eval_pasdw_funcs#0:shape[1]': 1,
         'c:eval_pasdw_funcs#1:contig': 1,
         'c:eval_pasdw_funcs#2:contig': 1,
+        'c:eval_pasdw_funcs#2:dtype': 1,
         'c:eval_pasdw_funcs#2:shape': 1,
         'c:eval_pasdw_funcs#3:contig': 1,
         'c:eval_pasdw_funcs#3:shape': 1,
@@ -1221,6 +1335,8 @@ FROZEN_CALL_GUARDS = {
         'c:pasdw_reduce_g#3:dtype': 1,
         'c:pasdw_reduce_g#3:ndim': 1,
         'c:pasdw_reduce_g#3:shape': 1,
+        'c:pasdw_reduce_g#3:shape[0]': 1,
+        'c:pasdw_reduce_g#3:shape[1]': 1,
         'c:pasdw_reduce_i#0:contig': 1,
         'c:pasdw_reduce_i#0:size': 1,
         'c:pasdw_reduce_i#1:contig': 1,
@@ -1229,59 +1345,79 @@ FROZEN_CALL_GUARDS = {
         'c:pasdw_reduce_i#3:dtype': 1,
         'c:pasdw_reduce_i#3:ndim': 1,
         'c:pasdw_reduce_i#3:shape': 1,
+        'c:pasdw_reduce_i#3:shape[0]': 1,
+        'c:pasdw_reduce_i#3:shape[1]': 1,
         'c:recursive_sph_harm_deriv_vec#2:contig': 1,
         'c:recursive_sph_harm_deriv_vec#3:contig': 1,
+        'c:recursive_sph_harm_deriv_vec#3:dtype': 1,
         'c:recursive_sph_harm_deriv_vec#3:shape': 1,
         'c:recursive_sph_harm_deriv_vec#4:contig': 1,
+        'c:recursive_sph_harm_deriv_vec#4:dtype': 1,
         'c:recursive_sph_harm_deriv_vec#4:shape': 1,
         'c:recursive_sph_harm_vec#2:contig': 1,
         'c:recursive_sph_harm_vec#3:contig': 1,
+        'c:recursive_sph_harm_vec#3:dtype': 1,
         'c:recursive_sph_harm_vec#3:shape': 1,
     },
     'ciderpress/dft/xc_evaluator.py': {
         'c:evaluate_se_kernel#0:contig': 1,
         'c:evaluate_se_kernel#0:shape': 1,
         'c:evaluate_se_kernel#1:contig': 1,
+        'c:evaluate_se_kernel#1:dtype': 1,
         'c:evaluate_se_kernel#1:shape': 1,
         'c:evaluate_se_kernel#2:contig': 1,
         'c:evaluate_se_kernel_antisym#0:contig': 1,
         'c:evaluate_se_kernel_antisym#0:shape': 1,
         'c:evaluate_se_kernel_antisym#1:contig': 1,
+        'c:evaluate_se_kernel_antisym#1:dtype': 1,
         'c:evaluate_se_kernel_antisym#1:shape': 1,
         'c:evaluate_se_kernel_antisym#2:contig': 1,
         'c:evaluate_se_kernel_spin#0:contig': 1,
         'c:evaluate_se_kernel_spin#0:shape': 1,
         'c:evaluate_se_kernel_spin#1:contig': 1,
+        'c:evaluate_se_kernel_spin#1:dtype': 1,
         'c:evaluate_se_kernel_spin#1:shape': 1,
         'c:evaluate_se_kernel_spin#2:contig': 1,
     },
     'ciderpress/lib/fft_plan.py': {
+        'c:allocate_fftnd_plan#1:contig': 1,
+        'c:allocate_fftnd_plan#1:dtype': 1,
         'c:read_fft_output#1:contig': 1,
+        'c:read_fft_output#1:dtype': 1,
         'c:read_fft_output#1:shape': 1,
+        'c:write_fft_input#1:contig': 1,
+        'c:write_fft_input#1:dtype': 1,
         'c:write_fft_input#1:shape': 1,
     },
     'ciderpress/lib/mpi_fft_plan.py': {
         'c:allocate_mpi_fft3d_plan_world#0:contig': 1,
+        'c:allocate_mpi_fft3d_plan_world#0:dtype': 1,
         'c:read_mpi_fft3d_output#1:contig': 1,
+        'c:read_mpi_fft3d_output#1:dtype': 1,
         'c:read_mpi_fft3d_output#1:shape': 1,
         'c:write_mpi_fft3d_input#1:dtype': 1,
         'c:write_mpi_fft3d_input#1:shape': 1,
     },
     'ciderpress/pyscf/frac_lapl.py': {
         'c:initialize_spline_1f1#0:contig': 2,
+        'c:initialize_spline_1f1#0:dtype': 2,
         'c:initialize_spline_1f1#0:shape': 2,
         'c:initialize_spline_1f1#1:contig': 2,
+        'c:initialize_spline_1f1#1:dtype': 2,
         'c:initialize_spline_1f1#1:shape': 2,
     },
     'ciderpress/pyscf/gen_cider_grid.py': {
         'c:recursive_sph_harm_vec#2:contig': 1,
         'c:recursive_sph_harm_vec#3:contig': 1,
+        'c:recursive_sph_harm_vec#3:dtype': 1,
         'c:recursive_sph_harm_vec#3:shape': 1,
     },
     'ciderpress/pyscf/pbc/sdmx_fft.py': {
         'c:apply_orb_phases#1:contig': 1,
+        'c:apply_orb_phases#1:dtype': 1,
         'c:apply_orb_phases#1:shape': 1,
         'c:apply_orb_phases#2:contig': 1,
+        'c:apply_orb_phases#2:dtype': 1,
         'c:apply_orb_phases#2:shape': 1,
         'c:apply_orb_phases#3:contig': 1,
         'c:apply_orb_phases#4:contig': 1,
@@ -1295,10 +1431,12 @@ FROZEN_CALL_GUARDS = {
         'c:parallel_mul_add_d#0:dtype': 1,
         'c:parallel_mul_add_d#0:ndim': 1,
         'c:parallel_mul_add_d#0:shape': 1,
+        'c:parallel_mul_add_d#0:shape[1]': 1,
         'c:parallel_mul_add_d#1:contig': 1,
         'c:parallel_mul_add_d#1:dtype': 1,
         'c:parallel_mul_add_d#1:ndim': 1,
         'c:parallel_mul_add_d#1:shape': 1,
+        'c:parallel_mul_add_d#1:shape[0]': 1,
         'c:parallel_mul_add_d#2:contig': 1,
         'c:parallel_mul_add_d#2:dtype': 1,
         'c:parallel_mul_add_d#2:shape': 1,
@@ -1306,10 +1444,12 @@ FROZEN_CALL_GUARDS = {
         'c:parallel_mul_add_z#0:dtype': 1,
         'c:parallel_mul_add_z#0:ndim': 1,
         'c:parallel_mul_add_z#0:shape': 1,
+        'c:parallel_mul_add_z#0:shape[1]': 1,
         'c:parallel_mul_add_z#1:contig': 1,
         'c:parallel_mul_add_z#1:dtype': 1,
         'c:parallel_mul_add_z#1:ndim': 1,
         'c:parallel_mul_add_z#1:shape': 1,
+        'c:parallel_mul_add_z#1:shape[0]': 1,
         'c:parallel_mul_add_z#2:contig': 1,
         'c:parallel_mul_add_z#2:dtype': 1,
         'c:parallel_mul_add_z#2:shape': 1,
@@ -1317,10 +1457,12 @@ FROZEN_CALL_GUARDS = {
         'c:parallel_mul_dz#0:dtype': 1,
         'c:parallel_mul_dz#0:ndim': 1,
         'c:parallel_mul_dz#0:shape': 1,
+        'c:parallel_mul_dz#0:shape[1]': 1,
         'c:parallel_mul_dz#1:contig': 1,
         'c:parallel_mul_dz#1:dtype': 1,
         'c:parallel_mul_dz#1:ndim': 1,
         'c:parallel_mul_dz#1:shape': 1,
+        'c:parallel_mul_dz#1:shape[0]': 1,
         'c:parallel_mul_dz#2:contig': 1,
         'c:parallel_mul_dz#2:dtype': 1,
         'c:parallel_mul_dz#2:shape': 1,
@@ -1328,10 +1470,12 @@ FROZEN_CALL_GUARDS = {
         'c:parallel_mul_z#0:dtype': 1,
         'c:parallel_mul_z#0:ndim': 1,
         'c:parallel_mul_z#0:shape': 1,
+        'c:parallel_mul_z#0:shape[1]': 1,
         'c:parallel_mul_z#1:contig': 1,
         'c:parallel_mul_z#1:dtype': 1,
         'c:parallel_mul_z#1:ndim': 1,
         'c:parallel_mul_z#1:shape': 1,
+        'c:parallel_mul_z#1:shape[0]': 1,
         'c:parallel_mul_z#2:contig': 1,
         'c:parallel_mul_z#2:dtype': 1,
         'c:parallel_mul_z#2:shape': 1,
@@ -1342,17 +1486,22 @@ FROZEN_CALL_GUARDS = {
         'c:recip_conv_kernel_ws#2:dtype': 1,
         'c:recip_conv_kernel_ws#2:ndim': 1,
         'c:recip_conv_kernel_ws#2:shape': 1,
+        'c:recip_conv_kernel_ws#2:shape[1]': 1,
         'c:recip_conv_kernel_ws#3:contig': 1,
+        'c:recip_conv_kernel_ws#3:dtype': 1,
         'c:recip_conv_kernel_ws#4:contig': 1,
         'c:recip_conv_kernel_ws#5:contig': 1,
+        'c:recip_conv_kernel_ws#5:dtype': 1,
         'c:run_ffts#0:contig': 3,
-        'c:run_ffts#0:dtype': 2,
+        'c:run_ffts#0:dtype': 3,
         'c:run_ffts#0:ndim': 1,
         'c:run_ffts#0:shape': 2,
+        'c:run_ffts#0:shape[1]': 1,
         'c:weight_symm_gpts#0:contig': 1,
         'c:weight_symm_gpts#0:dtype': 1,
         'c:weight_symm_gpts#0:ndim': 1,
         'c:weight_symm_gpts#0:shape': 1,
+        'c:weight_symm_gpts#0:shape[1]': 1,
         'c:zero_even_edges_fft#0:contig': 1,
         'c:zero_even_edges_fft#0:dtype': 1,
         'c:zero_even_edges_fft#0:size': 1,
@@ -1371,21 +1520,31 @@ FROZEN_CALL_GUARDS = {
         'c:SDMXcontract_ao_to_bas_l1_bwd#12:contig': 1,
         'c:SDMXcontract_ao_to_bas_l1_bwd#13:contig': 1,
         'c:SDMXeval_rad_loop#10:contig': 1,
+        'c:SDMXeval_rad_loop#10:dtype': 1,
         'c:SDMXeval_rad_loop#12:contig': 1,
+        'c:SDMXeval_rad_loop#12:dtype': 1,
         'c:SDMXeval_rad_loop#14:contig': 1,
+        'c:SDMXeval_rad_loop#14:dtype': 1,
         'c:SDMXeval_rad_loop#8:contig': 1,
+        'c:SDMXeval_rad_loop#8:dtype': 1,
         'c:SDMXylm_loop#2:contig': 1,
         'c:SDMXylm_loop#4:contig': 1,
         'c:contract_shl_to_alpha_l1#3:contig': 1,
+        'c:contract_shl_to_alpha_l1#3:dtype': 1,
         'c:contract_shl_to_alpha_l1#3:shape': 1,
         'c:contract_shl_to_alpha_l1#4:contig': 1,
     },
     'ciderpress/pyscf/sdmx_slow.py': {
         'c:SDMXeval_loop#11:contig': 1,
+        'c:SDMXeval_loop#11:dtype': 1,
         'c:SDMXeval_loop#13:contig': 1,
+        'c:SDMXeval_loop#13:dtype': 1,
         'c:SDMXeval_loop#15:contig': 1,
+        'c:SDMXeval_loop#15:dtype': 1,
         'c:SDMXeval_loop#9:contig': 1,
+        'c:SDMXeval_loop#9:dtype': 1,
         'c:SDMXylm_loop#2:contig': 1,
+        'c:SDMXylm_loop#2:dtype': 1,
         'c:SDMXylm_loop#4:contig': 1,
     },
 }
@@ -1393,22 +1552,28 @@ FROZEN_FUNC_GUARDS = {
     'ciderpress/dft/feat_normalizer.py::FeatNormalizerList._check_shape': [
         'p:x:ndim',
         'p:x:shape',
+        'p:x:shape[-2]',
     ],
     'ciderpress/dft/feat_normalizer.py::FeatNormalizerList.get_derivative_of_normed_features': [
         'p:DX0T:ndim',
         'p:DX0T:shape',
+        'p:DX0T:shape[-2]',
         'p:X0T:ndim',
         'p:X0T:shape',
+        'p:X0T:shape[-2]',
     ],
     'ciderpress/dft/feat_normalizer.py::FeatNormalizerList.get_derivative_wrt_unnormed_features': [
         'p:X0T:ndim',
         'p:X0T:shape',
+        'p:X0T:shape[-2]',
         'p:df_dX0TN:ndim',
         'p:df_dX0TN:shape',
+        'p:df_dX0TN:shape[-2]',
     ],
     'ciderpress/dft/feat_normalizer.py::FeatNormalizerList.get_normalized_feature_vector': [
         'p:X0T:ndim',
         'p:X0T:shape',
+        'p:X0T:shape[-2]',
     ],
     'ciderpress/dft/xc_evaluator.py::GlobalLinearEvaluator.__call__': [
         'p:dres:shape',
@@ -1416,6 +1581,7 @@ FROZEN_FUNC_GUARDS = {
     ],
     'ciderpress/dft/xc_evaluator.py::GlobalLinearEvaluator.__init__': [
         'self.consts:contig',
+        'self.consts:dtype',
     ],
     'ciderpress/dft/xc_evaluator.py::KernelEvaluator.__call__': [
         'p:dres:shape',
@@ -1432,6 +1598,9 @@ FROZEN_FUNC_GUARDS = {
         'p:dres:shape',
         'p:res:shape',
     ],
+    'ciderpress/dft/xc_evaluator.py::RBFEvaluator.__call__': [
+        'p:dres:shape',
+    ],
     'ciderpress/dft/xc_evaluator.py::RBFEvaluator.__init__': [
         'self._X1ctrl:contig',
         'self._alpha:contig',
@@ -1441,14 +1610,18 @@ FROZEN_FUNC_GUARDS = {
     'ciderpress/dft/xc_evaluator.py::SpinRBFEvaluator.__call__': [
         'p:X1:ndim',
         'p:X1:shape',
+        'p:X1:shape[0]',
     ],
     'ciderpress/dft/xc_evaluator.py::SplineSetEvaluator.__call__': [
         'p:dres:shape',
     ],
     'ciderpress/dft/xc_evaluator.py::SplineSetEvaluator.__init__': [
         'p:coeff_sets:shape',
+        'p:coeff_sets__each:shape',
         'p:ind_sets:shape',
+        'p:ind_sets__each:shape',
         'p:spline_grids:shape',
+        'p:spline_grids__each:shape',
     ],
 }
 
@@ -1873,6 +2046,245 @@ def rule_mirror(chk, eng):
         raise core.AnalysisError("mirror: no constructor with a Python attribute named like a field of the C object it creates")
 
 
+# ----------------------------------------------------------------------------
+# rule 8: default allocation agrees with the function's own shape assert
+# ----------------------------------------------------------------------------
+def _cond_sets(node):
+    pos, neg = set(), set()
+    for t, pol, kind in cfgm.conditions_at(node):
+        if kind == "enclosing":
+            (pos if pol else neg).add(pf.src(t))
+    return pos, neg
+
+
+def rule_alloc_assert(chk, eng):
+    """`if out is None: out = np.zeros((a, b))` followed (on a compatible path) by `assert out.shape == (c, d)`: the
+    default buffer must satisfy the assert the function imposes on a caller-supplied one."""
+    n = 0
+    done = set()
+    for s in eng.sites:
+        fn = pf.enclosing_func(s.node)
+        if fn is None or id(fn) in done:
+            continue
+        done.add(id(fn))
+        assigns = {}
+        for a in pf.walk_no_nested(fn):
+            if isinstance(a, ast.Assign) and len(a.targets) == 1 and isinstance(a.targets[0], ast.Name):
+                assigns.setdefault(a.targets[0].id, []).append(a.value)
+
+        def resolve(e, depth=0):
+            if isinstance(e, ast.Name) and len(assigns.get(e.id, ())) == 1 and depth < 4 \
+                    and isinstance(assigns[e.id][0], (ast.Name, ast.Attribute)):
+                return resolve(assigns[e.id][0], depth + 1)
+            return pf.src(e)
+
+        allocs, asserts = [], []
+        for st in pf.walk_no_nested(fn):
+            if isinstance(st, ast.Assign) and len(st.targets) == 1 and isinstance(st.targets[0], ast.Name) \
+                    and isinstance(st.value, ast.Call) and pf.call_name(st.value) in ("np.zeros", "np.empty", "np.ones") \
+                    and st.value.args and isinstance(st.value.args[0], (ast.Tuple, ast.List)):
+                allocs.append((st.targets[0].id, st, st.value.args[0].elts))
+            if isinstance(st, ast.Assert):
+                for e, pos in guards.conjuncts(st.test, True):
+                    if isinstance(e, ast.Compare) and len(e.ops) == 1 and isinstance(e.ops[0], ast.Eq) and pos:
+                        for l, r in ((e.left, e.comparators[0]), (e.comparators[0], e.left)):
+                            if isinstance(l, ast.Attribute) and l.attr == "shape" and isinstance(l.value, ast.Name) \
+                                    and isinstance(r, (ast.Tuple, ast.List)):
+                                asserts.append((l.value.id, st, r.elts))
+        for name, ast_alloc, adims in allocs:
+            rebinds = sum(1 for v in assigns.get(name, ()))
+            apos, aneg = _cond_sets(ast_alloc)
+            # the default-allocation idiom only: `if name is None: name = np.zeros(...)`
+            if not any(c.replace(" ", "") == "%sisNone" % name for c in apos):
+                continue
+            for nm2, ast_as, sdims in asserts:
+                if nm2 != name or ast_as.lineno < ast_alloc.lineno:
+                    continue
+                spos, sneg = _cond_sets(ast_as)
+                extra_pos = {c for c in apos if c.replace(" ", "") != "%sisNone" % name}
+                if (extra_pos & sneg) or (aneg & spos):
+                    continue  # the two lie on incompatible branches
+                # both must be qualified by the same remaining conditions, else not comparable
+                if extra_pos != {c for c in spos} or aneg != sneg:
+                    continue
+                n += 1
+                inst = "%s:%s default `%s` vs its shape assert" % (s.rel, s.func, name)
+                if len(adims) != len(sdims):
+                    chk.violation("alloc-assert", s.rel, s.func, "default %s vs assert %s.shape" % (name, name),
+                                  ast_alloc.lineno, "the default buffer has %d axes, the assert requires %d"
+                                  % (len(adims), len(sdims)), instance=inst)
+                    continue
+                bad = []
+                for k, (a, b) in enumerate(zip(adims, sdims)):
+                    ta, tb = resolve(a), resolve(b)
+                    if ta != tb and isinstance(a, (ast.Name, ast.Attribute)) and isinstance(b, (ast.Name, ast.Attribute)):
+                        bad.append((k, ta, tb))
+                if bad:
+                    k, ta, tb = bad[0]
+                    chk.violation("alloc-assert", s.rel, s.func, "default %s vs assert %s.shape" % (name, name),
+                                  ast_alloc.lineno,
+                                  "when `%s` is None it is allocated with axis %d = %s, but the function then asserts "
+                                  "%s.shape[%d] == %s (line %d): the default call fails its own check (or, where the two "
+                                  "happen to be equal, hides that the buffer belongs to the other basis)"
+                                  % (name, k, ta, name, k, tb, ast_as.lineno), instance=inst)
+                else:
+                    chk.ok("alloc-assert", inst)
+    chk.count("default allocations compared with a shape assert", n)
+    if n == 0:
+        raise core.AnalysisError("alloc-assert: no default allocation followed by a shape assert found")
+
+
+# ----------------------------------------------------------------------------
+# rule 9: independent optional buffers defaulted in one if/elif chain
+# ----------------------------------------------------------------------------
+def rule_default_chain(chk, eng):
+    """if a is None: a = ...  elif b is None: b = ...   -- when both are None only the first gets its default"""
+    n = 0
+    for rel in eng.rels:
+        mod_ast = chk.tree.py(rel)
+        for node in ast.walk(mod_ast):
+            if not isinstance(node, ast.If) or (isinstance(node._parent, ast.If) and node._parent.orelse == [node]):
+                continue
+            arms = []
+            cur = node
+            while True:
+                t = cur.test
+                nm = None
+                if isinstance(t, ast.Compare) and len(t.ops) == 1 and isinstance(t.ops[0], ast.Is) \
+                        and isinstance(t.left, ast.Name) and isinstance(t.comparators[0], ast.Constant) \
+                        and t.comparators[0].value is None:
+                    nm = t.left.id
+                if nm is None:
+                    arms = None
+                    break
+                stores = {x.id for st in cur.body for x in ast.walk(st) if isinstance(x, ast.Name) and isinstance(x.ctx, ast.Store)}
+                arms.append((nm, stores, cur))
+                if len(cur.orelse) == 1 and isinstance(cur.orelse[0], ast.If):
+                    cur = cur.orelse[0]
+                    continue
+                break
+            if not arms or len(arms) < 2:
+                continue
+            names = [a[0] for a in arms]
+            if len(set(names)) != len(names):
+                continue
+            fn = pf.enclosing_func(node)
+            qual = pf.qualname(fn) if fn else "<module>"
+            n += 1
+            inst = "%s:%s defaults of %s" % (rel, qual, ", ".join(names))
+            # every arm gives a default to its own name only, and leaves the block normally
+            indep = all(nm in st and not (st & (set(names) - {nm})) and not cfgm._terminates(c.body) for nm, st, c in arms)
+            if indep:
+                chk.violation("default-chain", rel, qual, "if %s is None ... elif %s is None" % (names[0], names[1]),
+                              node.lineno, "the optional arguments %s each get their default in a separate arm of ONE "
+                              "if/elif chain: when `%s` is None the later arms are skipped and `%s` stays None"
+                              % (", ".join(names), names[0], names[1]), instance=inst)
+            else:
+                chk.ok("default-chain", inst)
+    chk.count("if/elif chains over `is None` tests", n)
+
+
+# ----------------------------------------------------------------------------
+# rule 10: attribute created under one condition, consumed under another
+# ----------------------------------------------------------------------------
+def rule_cond_attr(chk, eng):
+    """__init__ sets `self.A = None` and creates the real value only `if C1 [or C2 ...]`; another method hands self.A to
+    a consumer that needs it (asserts `is not None` / dereferences it) inside `if G:` -- G must be one of the disjuncts
+    under which the attribute was created."""
+    n = 0
+    for rel in eng.rels:
+        mod_ast = chk.tree.py(rel)
+        for cls in [c for c in ast.walk(mod_ast) if isinstance(c, ast.ClassDef)]:
+            ms = pf.methods(cls)
+            init = ms.get("__init__")
+            if init is None:
+                continue
+            none_attrs = {t.attr for st in pf.walk_no_nested(init) if isinstance(st, ast.Assign)
+                          and isinstance(st.value, ast.Constant) and st.value.value is None
+                          for t in st.targets if pf.is_self_attr(t)}
+            for attr in sorted(none_attrs):
+                defs = [st for st in pf.walk_no_nested(init) if isinstance(st, ast.Assign)
+                        and any(pf.is_self_attr(t, attr) for t in st.targets)
+                        and not (isinstance(st.value, ast.Constant) and st.value.value is None)]
+                if len(defs) != 1:
+                    continue
+                conds = [(t, pol) for t, pol, kind in cfgm.conditions_at(defs[0]) if kind == "enclosing"]
+                if len(conds) != 1 or not conds[0][1]:
+                    continue
+                tdef = conds[0][0]
+                disj = [pf.src(v) for v in tdef.values] if isinstance(tdef, ast.BoolOp) and isinstance(tdef.op, ast.Or) \
+                    else [pf.src(tdef)]
+                # consumers that need the value: same-class methods asserting the parameter is not None
+                for mname, meth in ms.items():
+                    if mname == "__init__":
+                        continue
+                    for call in [c_ for c_ in pf.walk_no_nested(meth) if isinstance(c_, ast.Call)]:
+                        f = call.func
+                        if not (isinstance(f, ast.Attribute) and isinstance(f.value, ast.Name) and f.value.id == "self"
+                                and f.attr in ms):
+                            continue
+                        callee = ms[f.attr]
+                        cparams = [a.arg for a in callee.args.args][1:]
+                        for k, a in enumerate(call.args):
+                            if not pf.is_self_attr(a, attr) or k >= len(cparams):
+                                continue
+                            p_ = cparams[k]
+                            needs = any(isinstance(st, ast.Assert) and pf.src(st.test).replace(" ", "") == "%sisnotNone" % p_
+                                        for st in pf.walk_no_nested(callee))
+                            if not needs:
+                                continue
+                            guards_here = [pf.src(t) for t, pol, kind in cfgm.conditions_at(call)
+                                           if kind == "enclosing" and pol]
+                            if not guards_here:
+                                continue
+                            n += 1
+                            inst = "%s:%s.%s uses self.%s under `%s`" % (rel, cls.name, mname, attr, " and ".join(guards_here))
+                            if any(g_ in disj for g_ in guards_here):
+                                chk.ok("cond-attr", inst)
+                            else:
+                                chk.violation(
+                                    "cond-attr", rel, "%s.%s" % (cls.name, mname), "self.%s needed under %s" % (attr, guards_here[-1]),
+                                    call.lineno,
+                                    "__init__ creates self.%s only `if %s` (it stays None otherwise), but %s passes it to "
+                                    "%s -- which asserts it is not None -- under `if %s`: that condition is not one under "
+                                    "which the attribute exists" % (attr, pf.src(tdef), mname, f.attr, guards_here[-1]),
+                                    instance=inst)
+    chk.count("conditionally created attributes with a guarded consumer", n)
+
+
+# ----------------------------------------------------------------------------
+# rule 6c: sibling dtype guards at one native call (public wrappers)
+# ----------------------------------------------------------------------------
+def rule_sibling_dtype(chk, eng):
+    """A public wrapper (no leading underscore) that guarantees the dtype of SOME array parameters it hands to one native
+    call but not of the others: the unchecked sibling is read / written as float64 (int32) all the same."""
+    res = guards.buffer_layout(chk.tree, eng.sites)
+    by_site = {}
+    for r in res:
+        by_site.setdefault(id(r["site"]), []).append(r)
+    n = 0
+    for rs in by_site.values():
+        s = rs[0]["site"]
+        last = s.func.split(".")[-1]
+        if last.startswith("_") and not (last.startswith("__") and last.endswith("__")):
+            continue
+        checked = [r for r in rs if "dtype" in r["checked"]]  # an explicit assert / raising test
+        unchecked = [r for r in rs if "dtype" not in r["have"]]  # neither checked nor converted
+        if not checked:
+            continue
+        n += 1
+        inst = "%s:%s %s: dtype of every array parameter" % (s.rel, s.func, "|".join(s.callees))
+        if unchecked:
+            chk.violation("sibling-dtype", s.rel, s.func, "%s(...) dtype guards" % "|".join(s.callees), s.line,
+                          "the dtype of %s is guaranteed before the call but that of %s is not, although all of them are "
+                          "handed to %s as raw pointers" % (", ".join("`%s`" % r["subject"] for r in checked),
+                                                          ", ".join("`%s`" % r["subject"] for r in unchecked),
+                                                          "|".join(s.callees)), instance=inst)
+        else:
+            chk.ok("sibling-dtype", inst)
+    chk.count("public wrappers with some dtype guard", n)
+
+
 def _analyse_own(chk):
     tree = chk.tree
     chk.rule("ffi", "ctypes call sites conform to the C prototypes (SysV landing slots, kinds, restype, callbacks)")
@@ -1914,6 +2326,14 @@ def _analyse_own(chk):
         chk.rule("mirror", "python attributes named like integer fields of the C object a constructor creates hold the "
                            "value C derives from the integers that constructor passes")
         chk.guard(rule_mirror, box["eng"])
+        chk.rule("alloc-assert", "a default buffer allocation satisfies the shape assert the function applies afterwards")
+        chk.guard(rule_alloc_assert, box["eng"])
+        chk.rule("default-chain", "independent optional buffers are not defaulted in the arms of one if/elif chain")
+        chk.guard(rule_default_chain, box["eng"])
+        chk.rule("cond-attr", "an attribute created under a condition is consumed only under one of those conditions")
+        chk.guard(rule_cond_attr, box["eng"])
+        chk.rule("sibling-dtype", "a public wrapper that guards the dtype of one array argument guards all of them")
+        chk.guard(rule_sibling_dtype, box["eng"])
     else:
         chk.errors.append("rule_guards: not run because the ctypes engine failed")
     chk.floor("ffi", 50, "half of the 103 ctypes call sites")
@@ -1923,7 +2343,7 @@ def _analyse_own(chk):
     chk.floor("param-guards", 15, "half of the guarded-parameter table")
     chk.floor("dispatch", 12, "half of the multi-arm string ladders")
     chk.floor("expnt-guard", 1, "eval_feat_exp")
-    chk.floor("guards", 204, "half of the 408 frozen guard signatures")
+    chk.floor("guards", 280, "half of the 561 frozen guard signatures")
     chk.floor("mirror", 2, "ConvolutionCollection: nalpha, nbeta, has_vj (x flag configurations)")
     chk.floor("noncontig", 150, "half of the array pointer arguments at the ctypes call sites")
     chk.floor("bound-prov", 5, "(validated array, loop bound) pairs")
@@ -1983,8 +2403,8 @@ def mutants(tree):
         Mutant("ffi: class attribute override bound to another kernel signature", XE,
                "_fn = libcider.evaluate_se_kernel_spin", "_fn = libcider.SDMXylm_loop", expect="ffi"),
         # ---- len-agree / reject-mode
-        Mutant("len: remove assert ndt <= len(pows)", ST, "        assert ndt <= len(pows)\n", "", expect="len-agree"),
-        Mutant("len: remove assert n1 <= len(pows) (SDMX1)", ST, "        assert self._n1 <= len(self.pows)\n", "",
+        Mutant("len: remove upper bound ndt <= len(pows)", ST, "        assert 0 <= ndt <= len(pows)\n", "        assert 0 <= ndt\n", expect="len-agree"),
+        Mutant("len: remove upper bound n1 <= len(pows) (SDMX1)", ST, "        assert 0 <= self._n1 <= len(self.pows)\n", "        assert 0 <= self._n1\n",
                expect="len-agree"),
         Mutant("len: FracLapl nfeat forgets ndd", ST,
                "return self.nk0 + len(self.l1_dots) + len(self.ld_dots) + self.ndd",
@@ -2081,7 +2501,7 @@ def mutants(tree):
         Mutant("guards: ModelWithNormalizer size check removed", XE,
                "        if model.nfeat != normalizer.nfeat:\n            raise ValueError\n", "", expect="guards"),
         Mutant("guards: RBFEvaluator contiguity loop removed", XE,
-               "        for arr in [res, dres, X1]:\n            assert arr.flags.c_contiguous\n", "", expect="guards"),
+               "        for arr in [res, dsub, X1]:\n            assert arr.flags.c_contiguous\n", "", expect="guards"),
         Mutant("guards: offset + nalpha <= stride weakened to nalpha <= stride", LC,
                "        assert offset + nalpha <= stride\n", "        assert nalpha <= stride\n", expect="guards"),
         # ---- noncontig
@@ -2096,6 +2516,23 @@ def mutants(tree):
         Mutant("noncontig: attribute holds an inner-axis slice", "ciderpress/dft/lcao_interpolation.py",
                "            self._gaunt_coeff = get_deriv_ylm_coeff(self.lmax)",
                "            self._gaunt_coeff = get_deriv_ylm_coeff(self.lmax + 1)[:, : (self.lmax + 1) ** 2]", expect="noncontig"),
+        # ---- rules of round 11
+        Mutant("nonneg: lower bound of a count dropped", ST, "        assert 0 <= ndt <= len(pows)\n", "        assert ndt <= len(pows)\n",
+               expect="len-agree"),
+        Mutant("alloc-assert: default output allocated in the input basis", LC,
+               "            output = np.zeros((atco_out.nao, self.nalpha))\n", "            output = np.zeros((atco_inp.nao, self.nalpha))\n",
+               expect="alloc-assert"),
+        Mutant("default-chain: second optional buffer defaulted in an elif", PL,
+               "        if l1tmp is None:\n", "        elif l1tmp is None:\n", expect="default-chain"),
+        Mutant("cond-attr: l=0 spline weights built only when there are l=0 features", "ciderpress/dft/lcao_interpolation.py",
+               "        if self._n0 > 0 or self._n1 > 0:\n", "        if self._n0 > 0:\n", expect="cond-attr"),
+        Mutant("sibling-dtype: output dtype assert dropped while the input one stays", LC,
+               "        assert input.dtype == np.float64\n        assert output.dtype == np.float64\n        assert input.shape == (atco_inp.nao, self.nalpha)",
+               "        assert input.dtype == np.float64\n        assert input.shape == (atco_inp.nao, self.nalpha)",
+               expect="sibling-dtype"),
+        Mutant("param: explicit normalizer list no longer compared with nfeat", ST,
+               "        if self.normalizers.nfeat != self.nfeat:\n            raise ValueError(\"Need exactly one normalizer (or None) per feature\")\n",
+               "", expect="param-guards"),
         # ---- mirror
         Mutant("mirror: python output count forgets the l=1 upper channel", LC,
                "        self._nbeta = len(self._icontrib_ids)\n", "        self._nbeta = len(icontrib0_ids) + len(icontrib1m_ids)\n",
@@ -2106,7 +2543,7 @@ def mutants(tree):
                expect="mirror"),
         # ---- bound-prov
         Mutant("bound: total row count passed for the per-spin sample count (RBFEvaluator)", XE,
-               "        n = X1.shape[-2]\n        for arr in [res, dres, X1]:", "        n = X1.size // self._nfeat\n        for arr in [res, dres, X1]:",
+               "        n = X1.shape[-2]\n        for arr in [res, dsub, X1]:", "        n = X1.size // self._nfeat\n        for arr in [res, dsub, X1]:",
                expect="bound-prov"),
         Mutant("bound: half the list length passed while the sibling list is validated against the full length", PW,
                "    ni = len(nlist_i)\n    assert len(nlist_i) == len(lmlist_i)", "    ni = nlist_i.size * 2\n    assert len(nlist_i) == len(lmlist_i)",
